@@ -8,8 +8,8 @@
    variables, `lval` a literal, `sat` a clause list. *)
 Require Import Cirbo.Model.Base Cirbo.Model.Gate Cirbo.Model.Den Cirbo.Model.Circuit Cirbo.Model.Eval
         Cirbo.Model.Sem Cirbo.Model.Cnf Cirbo.Model.TseytinAlg Cirbo.Model.TseytinCases.
-Require Import Cirbo.Generated.Tseytin Cirbo.Generated.TseytinAlgGen.
-Require Import Cirbo.Proofs.TseytinAlgGen.
+Require Import Cirbo.Generated.Tseytin Cirbo.Generated.TseytinAlgGen Cirbo.Generated.SatQueryGen.
+Require Import Cirbo.Proofs.TseytinAlgGen Cirbo.Proofs.SatQueryGen.
 Require Import Cirbo.Proofs.TseytinTemplates Cirbo.Proofs.TseytinSound Cirbo.Proofs.TseytinSat
         Cirbo.Proofs.TseytinFuel Cirbo.Proofs.TseytinExamples.
 Local Open Scope Z_scope.
@@ -108,6 +108,20 @@ Theorem C05_algorithm_regenerated : forall c outs,
   (do r <- gen_tseytin_transformation (S (size c)) c outs; Ok (snd r, saved (fst r))) = tseytin c outs /\
   (do r <- gen_tseytin_transformation (S (size c)) c outs; Ok (snd r)) = tseytin_cnf c outs.
 Proof. exact algorithm_regenerated. Qed.
+
+(* (v) the satisfiability QUERY itself (cirbo/sat/sat.py is_satisfiable / is_circuit_satisfiable, Cnf.from_circuit,
+   Cnf.get_raw) is regenerated on every check by translator T27, whose fail-closed grammar accepts only the glue that
+   hands the raw clause list to the solver once and whole and returns the solver's answer and model as they are.  The
+   regenerated query is the query the theorems (iii) speak about, for every solver and every circuit; and the
+   formula the solver receives is the clause list of the transformation itself. *)
+Theorem C05_query_regenerated : forall (solve : list (list Z) -> option (list Z)) (c : circuit),
+  gen_is_circuit_satisfiable solve c = is_circuit_satisfiable solve c.
+Proof. exact query_regenerated. Qed.
+
+Theorem C05_query_hands_whole_formula : forall (solve : list (list Z) -> option (list Z)) (c : circuit) r,
+  gen_is_circuit_satisfiable solve c = Ok r <->
+  exists f, tseytin_cnf c None = Ok f /\ gen_is_satisfiable solve f = r /\ solve f = r.
+Proof. exact query_hands_whole_formula. Qed.
 
 (* ---- non-vacuity: the hypotheses are satisfiable ---------------------------------- *)
 (* a circuit with a 3-operand XOR satisfies every hypothesis, the transformation returns on it,
